@@ -460,6 +460,80 @@ Scheme expr_ind2 := Induction for expr Sort Prop
   with marms_ind2 := Induction for marms Sort Prop.
 Combined Scheme expr_args_ind from expr_ind2, args_ind2, marms_ind2.
 
+(* ---------- named arguments: the cells of the code = the per-parameter reading of the reference ---------- *)
+Lemma bind_named_cons ps cs x v nvs :
+  bind_named ps cs ((x, v) :: nvs) =
+  bind_named ps (match pindex x ps with Some i => set_cell i v cs | None => cs end) nvs.
+Proof. reflexivity. Qed.
+
+(* peeling the first parameter off: its cell holds the positional value, else the first argument named
+   after it; the remaining cells are the cells of the remaining parameters and the remaining names *)
+Lemma bind_named_peel y d r : forall nvs c cr,
+  bind_named ((y, d) :: r) (c :: cr) nvs =
+  (match c with Some _ => c | None => assoc_named y nvs end) :: bind_named r cr (without_name y nvs).
+Proof.
+  induction nvs as [|[x v] nvs IH]; intros c cr.
+  - destruct c; reflexivity.
+  - rewrite bind_named_cons. cbn [pindex assoc_named without_name filter fst].
+    rewrite (String.eqb_sym y x). destruct (String.eqb x y) eqn:E; cbn [negb].
+    + cbn [set_cell]. rewrite IH. destruct c; reflexivity.
+    + destruct (pindex x r) as [j|] eqn:P; cbn [option_map].
+      * cbn [set_cell]. rewrite IH. rewrite bind_named_cons, P. reflexivity.
+      * rewrite IH. rewrite bind_named_cons, P. reflexivity.
+Qed.
+
+Lemma smem_cons x y l : smem x (y :: l) = String.eqb x y || smem x l.
+Proof. reflexivity. Qed.
+Lemma assoc_none_smem x nvs :
+  (match assoc_named x nvs with Some _ => false | None => true end) = negb (smem x (map fst nvs)).
+Proof.
+  induction nvs as [|[y v] r IH]; [reflexivity|]. cbn [assoc_named map fst]. rewrite smem_cons.
+  destruct (String.eqb x y); [reflexivity|exact IH].
+Qed.
+Lemma smem_without x y nvs : String.eqb x y = false ->
+  smem x (map fst (without_name y nvs)) = smem x (map fst nvs).
+Proof.
+  intros N. induction nvs as [|[z v] r IH]; [reflexivity|]. cbn [without_name filter fst map].
+  destruct (String.eqb z y) eqn:E; cbn [negb].
+  - rewrite smem_cons. apply String.eqb_eq in E. subst z. rewrite N. exact IH.
+  - cbn [map fst]. rewrite !smem_cons. fold (without_name y r). rewrite IH. reflexivity.
+Qed.
+Lemma pindex_none_smem x ps : pindex x ps = None -> smem x (map fst ps) = false.
+Proof.
+  induction ps as [|[y d] r IH]; [reflexivity|]. cbn [pindex map fst]. rewrite smem_cons.
+  destruct (String.eqb x y); [discriminate|]. destruct (pindex x r); [discriminate|]. intros _. apply IH. reflexivity.
+Qed.
+
+(* the name check on the cells = known, not positional, not named before *)
+Lemma named_ok_eq : forall ps vs x seen, named_ok_impl ps vs x seen = named_ok_spec ps vs x seen.
+Proof.
+  induction ps as [|[y d] r IH]; intros vs x seen; [reflexivity|].
+  unfold named_ok_impl. cbn [pindex pos_cells]. destruct (String.eqb x y) eqn:E.
+  - unfold named_ok_spec. cbn [map fst]. rewrite smem_cons, E. cbn [orb andb].
+    destruct vs as [|v vr]; rewrite bind_named_peel; cbn [nth_error List.length firstn].
+    + apply String.eqb_eq in E. subst y. cbn [smem existsb negb andb]. apply assoc_none_smem.
+    + rewrite smem_cons, E. reflexivity.
+  - destruct (pindex x r) as [i|] eqn:P; cbn [option_map].
+    + assert (T : forall vr seen', named_ok_impl r vr x seen' =
+                 match nth_error (bind_named r (pos_cells r vr) seen') i with Some None => true | _ => false end).
+      { intros. unfold named_ok_impl. rewrite P. reflexivity. }
+      unfold named_ok_spec. cbn [map fst]. rewrite smem_cons, E. cbn [orb].
+      destruct vs as [|v vr]; rewrite bind_named_peel; cbn [nth_error List.length firstn]; rewrite <- T, IH;
+        unfold named_ok_spec; rewrite (smem_without _ _ _ E); [reflexivity|].
+      rewrite smem_cons, E. reflexivity.
+    + unfold named_ok_spec. cbn [map fst]. rewrite smem_cons, E, (pindex_none_smem _ _ P). reflexivity.
+Qed.
+
+(* the cells with the defaults filled in = positional value, else the value named after the parameter, else its default *)
+Lemma arrange_eq : forall ps vs nvs, arrange_impl ps vs nvs = arrange_spec ps vs nvs.
+Proof.
+  induction ps as [|[y d] r IH]; intros vs nvs; [reflexivity|].
+  unfold arrange_impl. cbn [pos_cells].
+  destruct vs as [|v vr]; rewrite bind_named_peel; cbn [fill_defaults arrange_spec tl].
+  - fold (arrange_impl r [] (without_name y nvs)). rewrite IH. reflexivity.
+  - fold (arrange_impl r vr (without_name y nvs)). rewrite IH. reflexivity.
+Qed.
+
 Section ExprEq.
 Variable funs : list fundef.
 Variable clos : list clodef.
@@ -773,6 +847,46 @@ Lemma ieval_conds_cons cf v e r fr g : ieval_conds cf funs clos fn v (ACons e r)
   end.
 Proof. reflexivity. Qed.
 
+Lemma ieval_calln cf f a xs b fr g : ieval cf funs clos fn (ECallN f a xs b) fr g =
+  match find_fun funs f with
+  | None => Res (EX (err "undefined function")) fr g
+  | Some d =>
+      match ieval_args cf funs clos fn a fr g with
+      | Res (inl pvs) fr g =>
+          match ieval_nargs cf funs clos fn (named_ok_impl (fparams d) pvs) xs [] b fr g with
+          | Res (inl nvs) fr g =>
+              match arrange_impl (fparams d) pvs nvs with
+              | Some full =>
+                  match cf (CFun f) full g with
+                  | Some (o, g') => Res o fr g'
+                  | None => Fuel
+                  end
+              | None => Res (EX (err "argument not passed")) fr g
+              end
+          | Res (inr x) fr g => Res (EX x) fr g
+          | Fuel => Fuel
+          end
+      | Res (inr x) fr g => Res (EX x) fr g
+      | Fuel => Fuel
+      end
+  end.
+Proof. reflexivity. Qed.
+Lemma ieval_nargs_nil cf ok xs seen fr g : ieval_nargs cf funs clos fn ok xs seen ANil fr g = Res (inl seen) fr g.
+Proof. reflexivity. Qed.
+Lemma ieval_nargs_cons cf ok xs seen e r fr g : ieval_nargs cf funs clos fn ok xs seen (ACons e r) fr g =
+  match xs with
+  | [] => Res (inl seen) fr g
+  | x :: xr =>
+      match ieval cf funs clos fn e fr g with
+      | Res (EV v) fr g =>
+          if ok x seen then ieval_nargs cf funs clos fn ok xr (seen ++ [(x, v)])%list r fr g
+          else Res (inr (err "named parameter")) fr g
+      | Res (EX w) fr g => Res (inr w) fr g
+      | Fuel => Fuel
+      end
+  end.
+Proof. reflexivity. Qed.
+
 Lemma reval_match cf s m fr g : reval cf funs clos fn (EMatch s m) fr g =
   match reval cf funs clos fn s fr g with
   | Res (EV v) fr g => reval_arms cf funs clos fn v m fr g
@@ -947,6 +1061,46 @@ Lemma reval_hi cf e fr g : reval cf funs clos fn (EHi e) fr g =
   end.
 Proof. reflexivity. Qed.
 
+Lemma reval_calln cf f a xs b fr g : reval cf funs clos fn (ECallN f a xs b) fr g =
+  match find_fun funs f with
+  | None => Res (EX (err "undefined function")) fr g
+  | Some d =>
+      match reval_args cf funs clos fn a fr g with
+      | Res (inl pvs) fr g =>
+          match reval_nargs cf funs clos fn (named_ok_spec (fparams d) pvs) xs [] b fr g with
+          | Res (inl nvs) fr g =>
+              match arrange_spec (fparams d) pvs nvs with
+              | Some full =>
+                  match cf (CFun f) full g with
+                  | Some (o, g') => Res o fr g'
+                  | None => Fuel
+                  end
+              | None => Res (EX (err "argument not passed")) fr g
+              end
+          | Res (inr x) fr g => Res (EX x) fr g
+          | Fuel => Fuel
+          end
+      | Res (inr x) fr g => Res (EX x) fr g
+      | Fuel => Fuel
+      end
+  end.
+Proof. reflexivity. Qed.
+Lemma reval_nargs_nil cf ok xs seen fr g : reval_nargs cf funs clos fn ok xs seen ANil fr g = Res (inl seen) fr g.
+Proof. reflexivity. Qed.
+Lemma reval_nargs_cons cf ok xs seen e r fr g : reval_nargs cf funs clos fn ok xs seen (ACons e r) fr g =
+  match xs with
+  | [] => Res (inl seen) fr g
+  | x :: xr =>
+      match reval cf funs clos fn e fr g with
+      | Res (EV v) fr g =>
+          if ok x seen then reval_nargs cf funs clos fn ok xr (seen ++ [(x, v)])%list r fr g
+          else Res (inr (err "named parameter")) fr g
+      | Res (EX w) fr g => Res (inr w) fr g
+      | Fuel => Fuel
+      end
+  end.
+Proof. reflexivity. Qed.
+
 Lemma reval_postinc cf x fr g : reval cf funs clos fn (EPostInc x) fr g =
   let '(nv, ov) := incr_value (rd fn x fr g) in
   let '(fr', g') := wr fn x nv fr g in Res (EV ov) fr' g'.
@@ -958,7 +1112,9 @@ Hypothesis cf_eq : forall c vs g, cf1 c vs g = cf2 c vs g.
 Lemma ieval_reval_both :
   (forall e, forall fr g, ieval cf1 funs clos fn e fr g = reval cf2 funs clos fn e fr g) /\
   (forall a, (forall fr g, ieval_args cf1 funs clos fn a fr g = reval_args cf2 funs clos fn a fr g) /\
-             (forall v fr g, ieval_conds cf1 funs clos fn v a fr g = reval_conds cf2 funs clos fn v a fr g)) /\
+             (forall v fr g, ieval_conds cf1 funs clos fn v a fr g = reval_conds cf2 funs clos fn v a fr g) /\
+             (forall ok1 ok2, (forall x s, ok1 x s = ok2 x s) -> forall xs seen fr g,
+                ieval_nargs cf1 funs clos fn ok1 xs seen a fr g = reval_nargs cf2 funs clos fn ok2 xs seen a fr g)) /\
   (forall m, forall v fr g, ieval_arms cf1 funs clos fn v m fr g = reval_arms cf2 funs clos fn v m fr g).
 Proof.
   apply expr_args_ind; intros; try reflexivity;
@@ -970,7 +1126,8 @@ Proof.
     try rewrite ieval_match, reval_match;
     try rewrite ieval_idx, reval_idx; try rewrite ieval_idxinc, reval_idxinc;
     try rewrite ieval_callv, reval_callv;
-    try rewrite ieval_prop, reval_prop; try rewrite ieval_setprop, reval_setprop; try rewrite ieval_hi, reval_hi.
+    try rewrite ieval_prop, reval_prop; try rewrite ieval_setprop, reval_setprop; try rewrite ieval_hi, reval_hi;
+    try rewrite ieval_calln, reval_calln.
   - (* EBin *)
     assert (S : islow cf1 o a b fr g = reval cf2 funs clos fn (EBin o a b) fr g).
     { unfold islow. rewrite reval_bin. rewrite H. destruct (reval cf2 funs clos fn a fr g) as [|[va|x] fr0 g0]; try reflexivity.
@@ -1011,17 +1168,26 @@ Proof.
   - (* EHi *) rewrite H. reflexivity.
   - (* EMatch *)
     rewrite H. destruct (reval cf2 funs clos fn s fr g) as [|[v|x] fr0 g0]; try reflexivity. apply H0.
-  - (* ANil *) split; reflexivity.
+  - (* ECallN *)
+    destruct H as [Ha _]. destruct H0 as (_ & _ & Hn). destruct (find_fun funs f) as [d|]; [|reflexivity]. rewrite Ha.
+    destruct (reval_args cf2 funs clos fn a fr g) as [|[pvs|x] fr0 g0]; try reflexivity.
+    rewrite (Hn (named_ok_impl (fparams d) pvs) (named_ok_spec (fparams d) pvs) (named_ok_eq (fparams d) pvs)).
+    destruct (reval_nargs cf2 funs clos fn (named_ok_spec (fparams d) pvs) xs [] b fr0 g0) as [|[nvs|x] fr1 g1]; try reflexivity.
+    rewrite arrange_eq. destruct (arrange_spec (fparams d) pvs nvs); [|reflexivity]. rewrite cf_eq. reflexivity.
+  - (* ANil *) repeat split; reflexivity.
   - (* ACons *)
-    destruct H0 as [Ha Hc]. split; intros.
+    destruct H0 as (Ha & Hc & Hn). repeat split; intros.
     + rewrite ieval_args_cons, reval_args_cons, H.
       destruct (reval cf2 funs clos fn e fr g) as [|[v|x] fr0 g0]; try reflexivity. rewrite Ha. reflexivity.
     + rewrite ieval_conds_cons, reval_conds_cons, H.
       destruct (reval cf2 funs clos fn e fr g) as [|[w|x] fr0 g0]; try reflexivity.
       destruct (same_value v w); [reflexivity|apply Hc].
+    + rewrite ieval_nargs_cons, reval_nargs_cons. destruct xs as [|x xr]; [reflexivity|]. rewrite H.
+      destruct (reval cf2 funs clos fn e fr g) as [|[v|w] fr0 g0]; try reflexivity.
+      rewrite H0. destruct (ok2 x seen); [|reflexivity]. apply Hn. exact H0.
   - (* MDefault *) rewrite ieval_arms_default, reval_arms_default. apply H.
   - (* MCons *)
-    destruct H as [_ Hc]. rewrite ieval_arms_cons, reval_arms_cons, Hc.
+    destruct H as (_ & Hc & _). rewrite ieval_arms_cons, reval_arms_cons, Hc.
     destruct (reval_conds cf2 funs clos fn v c fr g) as [|[[|]|x] fr0 g0]; try reflexivity; auto.
 Qed.
 
